@@ -368,7 +368,7 @@ func TestApiRace(t *testing.T) {
 			}()
 		}
 		if job.Renom > 0 {
-			spawn(func() { // F-C10: the one public mutator that does not go through the task loop
+			spawn(func() { // regression schedule of F-C10 (repaired by 172292b): RenominateCandidate with no other synchronisation with the loop
 				rng := mrand.New(mrand.NewSource(job.Seed + 7)) //nolint:gosec
 				for i := 0; i < job.Renom; i++ {
 					_ = p.ag["A"].RenominateCandidate(sel.Local, sel.Remote)
